@@ -35,6 +35,10 @@ pub struct Case {
     pub b: i128,
     pub dur: Dur,
     pub largest: Option<U>,
+    /// a date unit (year..day) offered as smallestUnit and/or largestUnit of a time / instant difference: must be
+    /// refused (0 = none, 1 = as smallest, 2 = as largest, 3 = both)
+    #[serde(default)]
+    pub date_unit: Option<(U, u8)>,
 }
 pub struct Sub;
 
@@ -125,6 +129,27 @@ impl SubCheck for Sub {
                     Op::TimeUntil | Op::InstantUntil => c.b - c.a,
                     _ => c.a - c.b,
                 };
+                if let Some((du, place)) = c.date_unit {
+                    // instants and times refuse calendar and day units in every option slot
+                    o = o.class(if is_time { "time.diff:date-unit-offered" } else { "instant.diff:date-unit-offered" }).nontrivial(true);
+                    let (l, s_) = match place % 4 {
+                        1 => (c.largest.map(unit), Some(unit(du))),
+                        2 => (Some(unit(du)), None),
+                        _ => (Some(unit(du)), Some(unit(du))),
+                    };
+                    let st = diff_settings(l, s_, None, None);
+                    let r = match c.op {
+                        Op::TimeUntil => plain_time(c.a).unwrap().until(&plain_time(c.b).unwrap(), st),
+                        Op::TimeSince => plain_time(c.a).unwrap().since(&plain_time(c.b).unwrap(), st),
+                        Op::InstantUntil => Instant::try_new(c.a).unwrap().until(&Instant::try_new(c.b).unwrap(), st),
+                        _ => Instant::try_new(c.a).unwrap().since(&Instant::try_new(c.b).unwrap(), st),
+                    };
+                    match r {
+                        Err(e) if e.kind() == ErrorKind::Range => {}
+                        other => return o.fail("C06/diff/date-unit-accepted", "RangeError", format!("{:?}", other.map(|d| duration_fields(&d)).map_err(|e| err_str(&e)))),
+                    }
+                    return o;
+                }
                 // default largest: hour for times, second for instants
                 let largest = c.largest.unwrap_or(if is_time { U::Hour } else { U::Second });
                 let want = balance_time(diff, largest);
@@ -186,7 +211,7 @@ impl SubCheck for Sub {
 
 pub fn case() -> BoxedStrategy<Case> {
     let zero = Dur::zero();
-    let time_add = (gen::ns_of_day(), gen::valid_time_dur(), prop::bool::ANY).prop_map(move |(a, dur, sub)| Case { op: if sub { Op::TimeSubtract } else { Op::TimeAdd }, a, b: 0, dur, largest: None });
+    let time_add = (gen::ns_of_day(), gen::valid_time_dur(), prop::bool::ANY).prop_map(move |(a, dur, sub)| Case { op: if sub { Op::TimeSubtract } else { Op::TimeAdd }, a, b: 0, dur, largest: None, date_unit: None });
     // instants: result near the limits on purpose
     let inst_add = (gen::instant_ns(), gen::valid_time_dur(), prop::bool::ANY, 0u8..4, -2i128..=2).prop_map(move |(a, dur, sub, k, d)| {
         // k == 0: choose the duration so that the exact sum lands within 2 ns of a limit
@@ -203,7 +228,7 @@ pub fn case() -> BoxedStrategy<Case> {
                 dur = cand;
             }
         }
-        Case { op: if sub { Op::InstantSubtract } else { Op::InstantAdd }, a, b: 0, dur, largest: None }
+        Case { op: if sub { Op::InstantSubtract } else { Op::InstantAdd }, a, b: 0, dur, largest: None, date_unit: None }
     });
     let inst_date = (gen::instant_ns(), 0usize..4, 1i128..=5, prop::bool::ANY, gen::valid_time_dur()).prop_map(|(a, idx, v, neg, t)| {
         let mut f = t.f;
@@ -214,21 +239,26 @@ pub fn case() -> BoxedStrategy<Case> {
             }
         }
         f[idx] = s * v;
-        Case { op: Op::InstantAddDateUnits, a, b: 0, dur: Dur { f }, largest: None }
+        Case { op: Op::InstantAddDateUnits, a, b: 0, dur: Dur { f }, largest: None, date_unit: None }
     }).prop_filter("valid", |c| c.dur.valid());
     let largest = prop_oneof![1 => Just(None), 6 => gen::unit_in(4, 9).prop_map(Some)];
-    let time_diff = (gen::ns_of_day(), gen::ns_of_day(), largest.clone(), prop::bool::ANY).prop_map(move |(a, b, largest, since)| Case { op: if since { Op::TimeSince } else { Op::TimeUntil }, a, b, dur: zero, largest });
+    let time_diff = (gen::ns_of_day(), gen::ns_of_day(), largest.clone(), prop::bool::ANY).prop_map(move |(a, b, largest, since)| Case { op: if since { Op::TimeSince } else { Op::TimeUntil }, a, b, dur: zero, largest, date_unit: None });
     let inst_diff = (gen::instant_ns(), gen::instant_ns(), largest, prop::bool::ANY, prop::bool::ANY).prop_map(move |(a, b, largest, since, near)| {
         let b = if near { (a + (b % 100_000_000_000_000)).clamp(-MAX_INSTANT, MAX_INSTANT) } else { b };
-        Case { op: if since { Op::InstantSince } else { Op::InstantUntil }, a, b, dur: zero, largest }
+        Case { op: if since { Op::InstantSince } else { Op::InstantUntil }, a, b, dur: zero, largest, date_unit: None }
     });
     let ms = (gen::instant_ns(), prop_oneof![(-8_640_000_000_000_003i128..=8_640_000_000_000_003), (-3i128..=3), (0i128..=3).prop_map(|k| 8_640_000_000_000_000 - k), (0i128..=3).prop_map(|k| -8_640_000_000_000_000 + k), (i64::MIN as i128..=i64::MAX as i128)])
-        .prop_map(move |(a, b)| Case { op: Op::EpochMs, a, b, dur: zero, largest: None });
-    prop_oneof![3 => time_add, 3 => inst_add, 1 => inst_date, 2 => time_diff, 3 => inst_diff, 2 => ms].boxed()
+        .prop_map(move |(a, b)| Case { op: Op::EpochMs, a, b, dur: zero, largest: None, date_unit: None });
+    let bad_unit = (gen::instant_ns(), gen::instant_ns(), gen::ns_of_day(), gen::ns_of_day(), gen::unit_in(0, 3), 1u8..=3, 0u8..4, prop::option::of(gen::unit_in(4, 9)), prop::bool::ANY).prop_map(move |(ia, ib, ta, tb, du, place, which, largest, equal)| {
+        let op = [Op::TimeUntil, Op::TimeSince, Op::InstantUntil, Op::InstantSince][which as usize];
+        let (a, b) = if which < 2 { (ta, if equal { ta } else { tb }) } else { (ia, if equal { ia } else { ib }) };
+        Case { op, a, b, dur: zero, largest, date_unit: Some((du, place)) }
+    });
+    prop_oneof![3 => time_add, 3 => inst_add, 1 => inst_date, 2 => time_diff, 3 => inst_diff, 2 => ms, 1 => bad_unit].boxed()
 }
 
 pub fn run(ctx: &mut Ctx) {
-    ctx.rule = "generated ops: PlainTime add/subtract of any valid time duration (fields up to 2^53 s worth, far above 2^63 ns) == (ns + exact total) mod 86400e9; Instant add/subtract == exact sum, RangeError iff outside +-8.64e21 (a quarter of the cases are steered to land within 2 ns of a limit), RangeError for any non-zero date field; until/since of times and instants == exact difference balanced to the largest unit (6 time units + default); epoch_milliseconds == floor(ns / 1e6) and from_epoch_milliseconds round trip incl. limits. non-trivial = |total| >= 2^63 ns, wrap across midnight, negative, within 1 ns of a limit, default largest unit, negative instant with sub-ms part.".into();
+    ctx.rule = "generated ops: PlainTime add/subtract of any valid time duration (fields up to 2^53 s worth, far above 2^63 ns) == (ns + exact total) mod 86400e9; Instant add/subtract == exact sum, RangeError iff outside +-8.64e21 (a quarter of the cases are steered to land within 2 ns of a limit), RangeError for any non-zero date field; until/since of times and instants == exact difference balanced to the largest unit (6 time units + default), and RangeError whenever year/month/week/day is offered as smallestUnit and/or largestUnit (also for equal operands); epoch_milliseconds == floor(ns / 1e6) and from_epoch_milliseconds round trip incl. limits. non-trivial = |total| >= 2^63 ns, wrap across midnight, negative, within 1 ns of a limit, default largest unit, negative instant with sub-ms part.".into();
     ctx.assumptions = vec!["PlainTime.add of durations with date fields is not judged (Temporal ignores them, the crate rejects them; outside the statement)".into()];
     ctx.run_prop(&Sub, &case, ctx.tier.pick(1_500_000, 40_000_000));
 }
